@@ -646,6 +646,28 @@ class Interp:
         if box.uncertain:
             self.adopt(box, got)
             return
+        # A delivery whose second equals the folder's current mtime second may still be
+        # invisible: asimap compares mtimes with one second granularity and may have
+        # recorded that very second (through a write of its own) before the file
+        # existed.  C13 conditions on the mtime having advanced, so such trailing,
+        # never-observed deliveries are allowed to be missing (they stay expected).
+        hidden = []
+        if len(got) < len(exp):
+            try:
+                path = os.path.join(self.maildir, box.name)
+                fm = int(max(os.stat(path).st_mtime, os.stat(os.path.join(path, ".mh_sequences")).st_mtime))
+            except OSError:
+                fm = None
+            while exp and len(got) < len(exp) and exp[-1].uid is None and exp[-1].born is not None and fm is not None and int(exp[-1].date) >= fm:
+                hidden.insert(0, exp[-1])
+                exp = exp[:-1]
+            if hidden:
+                self.ctx.probe("same_second_delivery_not_yet_visible", len(hidden))
+                for m in hidden:
+                    # while asimap does not know the message, a flag-changing command rewrites
+                    # .mh_sequences from what it knows: the `unseen` mark may be gone by the
+                    # time the message is noticed (outside C13's mtime-advanced condition)
+                    m.amb = m.mh_amb = True
         # match model list against observed list
         self.C("c05_conservation")
         ok = True
@@ -671,6 +693,7 @@ class Interp:
             if not missing and not extra:
                 self.V("C03", "order_or_uid_changed", mailbox=box.name, why=why, expected=[(m.uid, m.tok) for m in exp], got=[(g["uid"], g["tok"]) for g in got])
             self.adopt(box, got)
+            box.msgs.extend(hidden)
             return
         for m, g in zip(exp, got):
             if m.uid is None:
@@ -723,7 +746,7 @@ class Interp:
             return
         self.C("c13_flags")
         for key, m in zip(keys, box.msgs):
-            if m.mh_amb:
+            if m.mh_amb or m.uid is None:
                 continue
             inseq = {n for n, v in seqs.items() if key in v}
             fl = set()
@@ -820,6 +843,19 @@ class Interp:
             nums = [view.index(u) + 1 for u in uids if u in view]
             return ",".join(map(str, nums)) or "1", [view[n - 1] for n in nums], bool(nums)
         raise ValueError(st)
+
+    def min_visible(self, box):
+        """Number of leading model messages that must be visible (trailing never-observed
+        deliveries of the folder's current mtime second may not be yet)."""
+        n = len(box.msgs)
+        try:
+            path = os.path.join(self.maildir, box.name)
+            fm = int(max(os.stat(path).st_mtime, os.stat(os.path.join(path, ".mh_sequences")).st_mtime))
+        except OSError:
+            return n
+        while n > 0 and box.msgs[n - 1].uid is None and box.msgs[n - 1].born is not None and int(box.msgs[n - 1].date) >= fm:
+            n -= 1
+        return n
 
     def view_synced_list(self, view, box):
         if box is None or len(view) != len(box.msgs):
@@ -924,7 +960,7 @@ class Interp:
             f = await self.run_cmd(sess, ms, "UID FETCH 1:* (UID)")
         if self.compare and not box.uncertain:
             self.C("c01_select_exists")
-            if len(sess.view or []) != len(box.msgs):
+            if not (self.min_visible(box) <= len(sess.view or []) <= len(box.msgs)):
                 self.V("C01", "select_count_wrong", session=sess.sid, mailbox=name, view=len(sess.view or []), model=len(box.msgs))
             else:
                 self.learn_uids(sess, box)
@@ -1289,6 +1325,8 @@ class Interp:
                     break
                 if u.kind == "EXPUNGE" and u.num and 1 <= u.num <= len(v):
                     del v[u.num - 1]
+                elif u.kind == "EXISTS" and u.num is not None and u.num > len(v):
+                    v.extend([None] * (u.num - len(v)))
             nums = op["set"]["pos"]
             if all(1 <= p <= len(v) for p in nums) and nums:
                 uids, valid = [v[p - 1] for p in nums], True
@@ -1337,6 +1375,8 @@ class Interp:
         c = code_of(r, "COPYUID")
         self.C("c02_copyuid")
         news = [MMsg(None, m.tok, m.flags, m.date) for m in srcs]
+        for m, nm in zip(srcs, news):
+            nm.amb, nm.mh_amb = m.amb, m.mh_amb  # a split delivery stays ambiguous until first observed
         if srcs:
             if not c:
                 self.V("C02", "copyuid_missing", cmd=f"{verb} {txt}", reply=r.brief())
@@ -1376,7 +1416,7 @@ class Interp:
         if not self.compare or box is None or box.uncertain or sess.view is None:
             return
         self.C("c01_flush_equal")
-        if len(sess.view) != len(box.msgs) or any(
+        if not (self.min_visible(box) <= len(sess.view) <= len(box.msgs)) or any(
             c is not None and m.uid is not None and c != m.uid for c, m in zip(sess.view, box.msgs)
         ):
             self.V(
@@ -1593,7 +1633,7 @@ class Interp:
         self.C("c13_announced")
         if box.uncertain or sess.view is None:
             return
-        if len(sess.view) != len(box.msgs):
+        if not (self.min_visible(box) <= len(sess.view) <= len(box.msgs)):
             self.V(
                 "C13", "delivery_not_announced", session=sess.sid, verb=verb, view=len(sess.view), model=len(box.msgs), mailbox=box.name,
             )
